@@ -154,7 +154,8 @@ def run(cfg, R):
             outs, extra = O
             tw.append(("network 0 output == 0", tm.conj([eq(a, const(0, "Real")) for a in outs[0].flat])))
             return tw
-        R.check(name, tr, goals, twin_fn=twins, key_fn=lambda p_, g: f"{net}:" + g.split(":")[-1][:40])
+        R.check(name, tr, goals, twin_fn=twins, hint_spec=[(r".", ("range", -1, 1))],          # small hints: nested stub polynomials stay O(1), so the tolerant concrete equality can tell the twin apart
+                key_fn=lambda p_, g: f"{net}:" + g.split(":")[-1][:40])
         return
 
     if net == "spinn":
